@@ -68,3 +68,75 @@ Qed.
 Definition const_names (c : comb) (consts : list (bytes * N)) : bool :=
   existsb (fun kv => (snd kv =? c_id c) && beq (norm_ident (fst kv)) (norm_ident (c_name c))) consts
   && forallb (fun kv => negb (snd kv =? c_id c) || beq (norm_ident (fst kv)) (norm_ident (c_name c))) consts.
+
+(* ---- interface of the result type ----
+   The generator creates one Go interface per schema type that has several constructors and makes
+   every constructor's struct implement it (marker method ImplementsT).  The interface is found by
+   its name: position of the first Go name that reads like the schema type name. *)
+Fixpoint index_of_ident (t : bytes) (names : list bytes) (i : N) : option N :=
+  match names with
+  | [] => None
+  | n :: r => if beq (norm_ident n) (norm_ident t) then Some i else index_of_ident t r (i + 1)
+  end.
+
+From Coq Require Import Lia.
+Lemma index_of_ident_spec t names : forall i j, index_of_ident t names i = Some j ->
+  i <= j /\ norm_ident (nth (N.to_nat (j - i)) names []) = norm_ident t.
+Proof.
+  induction names as [|n r IH]; intros i j H; cbn [index_of_ident] in H; [discriminate|].
+  destruct (beq (norm_ident n) (norm_ident t)) eqn:E.
+  - injection H as <-. split; [apply N.le_refl|]. rewrite N.sub_diag. cbn [N.to_nat nth]. apply beq_eq. exact E.
+  - destruct (IH _ _ H) as [Hle Hn]. split; [lia|].
+    replace (N.to_nat (j - i)) with (S (N.to_nat (j - (i + 1)))) by lia.
+    cbn [nth]. exact Hn.
+Qed.
+
+Lemma index_of_ident_none t names i : index_of_ident t names i = None ->
+  forall n, In n names -> norm_ident n <> norm_ident t.
+Proof.
+  revert i; induction names as [|x r IH]; intros i H n Hin; [destruct Hin|].
+  cbn [index_of_ident] in H. destruct (beq (norm_ident x) (norm_ident t)) eqn:E; [discriminate|].
+  destruct Hin as [<-|Hin]; [|exact (IH _ H n Hin)].
+  intros Heq. apply beq_eq in Heq. rewrite Heq in E. discriminate.
+Qed.
+
+(* the struct implements exactly tl.Object (index 0) and, when its result type has an interface,
+   that interface: [impls] is the ascending list of interface indices the struct implements *)
+Fixpoint eq_nlist (a b : list N) : bool :=
+  match a, b with
+  | [], [] => true
+  | x :: a', y :: b' => (x =? y) && eq_nlist a' b'
+  | _, _ => false
+  end.
+
+Lemma eq_nlist_eq a b : eq_nlist a b = true <-> a = b.
+Proof.
+  revert b; induction a as [|x a IH]; intros [|y b]; cbn [eq_nlist]; try (split; congruence).
+  rewrite andb_true_iff, N.eqb_eq, IH. split; [intros [-> ->]; reflexivity|intros H; injection H; auto].
+Qed.
+
+Definition result_iface_ok (ifaces : list bytes) (result : bytes) (needs_iface : bool) (impls : list N) : bool :=
+  match index_of_ident result ifaces 0 with
+  | Some j => eq_nlist impls (if j =? 0 then [0] else [0; j])
+  | None => negb needs_iface && eq_nlist impls [0]
+  end.
+
+(* reading: when the type needs an interface, one with its name exists and the struct implements it *)
+Lemma result_iface_ok_spec ifaces result impls : result_iface_ok ifaces result true impls = true ->
+  exists j, norm_ident (nth (N.to_nat j) ifaces []) = norm_ident result /\ In j impls.
+Proof.
+  unfold result_iface_ok. destruct (index_of_ident result ifaces 0) as [j|] eqn:E; [|discriminate].
+  intros H. exists j. destruct (index_of_ident_spec _ _ _ _ E) as [_ Hn]. rewrite N.sub_0_r in Hn. split; [exact Hn|].
+  apply eq_nlist_eq in H. subst impls. destruct (j =? 0) eqn:Ej; [apply N.eqb_eq in Ej; subst j; left; reflexivity|right; left; reflexivity].
+Qed.
+
+(* duplicates of a list of numbers / of names (for the "exactly one" half) *)
+Fixpoint dups_n (l : list N) : list N :=
+  match l with [] => [] | x :: r => if existsb (N.eqb x) r then x :: dups_n r else dups_n r end.
+
+Lemma dups_n_nil l : dups_n l = [] -> NoDup l.
+Proof.
+  induction l as [|x r IH]; intros H; [constructor|]. cbn [dups_n] in H.
+  destruct (existsb (N.eqb x) r) eqn:E; [discriminate|]. constructor; [|exact (IH H)].
+  intros Hin. assert (existsb (N.eqb x) r = true) by (apply existsb_exists; exists x; split; [exact Hin|apply N.eqb_refl]). congruence.
+Qed.
